@@ -67,6 +67,10 @@ package playlist
 //@   ensures [C15] result in /#EXT-X-PART:DURATION={DF},URI={QS}(,INDEPENDENT=YES)?(,BYTERANGE="{BR}")?(,GAP=YES)?\n/
 //@   emits [C14] "DURATION=" p.Duration
 //@   emits [C14] "URI=\"" p.URI
+// a field that is set is written (C14: nothing the value carries is dropped by the encoder)
+//@   ensures [C14] p.Independent ==> contains(result, ",INDEPENDENT=YES")
+//@   ensures [C14] p.ByteRangeLength != nil ==> contains(result, ",BYTERANGE=")
+//@   ensures [C14] p.Gap ==> contains(result, ",GAP=YES")
 //@ end
 
 //@ func MediaPartInf.marshal
@@ -87,6 +91,10 @@ package playlist
 //@   ensures [C14,C15] result in /#EXT-X-SERVER-CONTROL:(CAN-BLOCK-RELOAD=YES)?(,?PART-HOLD-BACK={DF})?(,?CAN-SKIP-UNTIL={DF})?\n/
 //@   emits [C14] "PART-HOLD-BACK=" t.PartHoldBack
 //@   emits [C14] "CAN-SKIP-UNTIL=" t.CanSkipUntil
+// a field that is set is written (C14)
+//@   ensures [C14] t.CanBlockReload ==> contains(result, "CAN-BLOCK-RELOAD=YES")
+//@   ensures [C14] t.PartHoldBack != nil ==> contains(result, "PART-HOLD-BACK=")
+//@   ensures [C14] t.CanSkipUntil != nil ==> contains(result, "CAN-SKIP-UNTIL=")
 //@ end
 
 //@ func MediaPreloadHint.marshal
@@ -95,6 +103,9 @@ package playlist
 //@   emits [C14] "URI=\"" t.URI
 //@   emits [C14] "BYTERANGE-START=" t.ByteRangeStart
 //@   emits [C14] "BYTERANGE-LENGTH=" *t.ByteRangeLength
+// a field that is set is written (C14: nothing the value carries is dropped by the encoder)
+//@   ensures [C14] t.ByteRangeStart != 0 ==> contains(result, ",BYTERANGE-START=")
+//@   ensures [C14] t.ByteRangeLength != nil ==> contains(result, ",BYTERANGE-LENGTH=")
 //@ end
 
 //@ func MediaMap.marshal
@@ -102,12 +113,19 @@ package playlist
 //@   ensures [C14,C15] result in /#EXT-X-MAP:URI={QS}(,BYTERANGE=("{BR}"|{BR}))?\n/
 //@   ensures [C15] result in /#EXT-X-MAP:URI={QS}(,BYTERANGE="{BR}")?\n/
 //@   emits [C14] "URI=\"" t.URI
+// a field that is set is written (C14)
+//@   ensures [C14] t.ByteRangeLength != nil ==> contains(result, ",BYTERANGE=")
 //@ end
 
 //@ func MediaKey.marshal
 //@   props C14 C15
 //@   ensures [C14,C15] result in /#EXT-X-KEY:METHOD=(NONE|AES-128|SAMPLE-AES)(,URI={QS}(,IV=0[xX][0-9a-fA-F]+)?(,KEYFORMAT={QS})?(,KEYFORMATVERSIONS={QS})?)?\n/
 //@   emits [C14] "METHOD=" t.Method
+// a field that is set is written (C14: nothing the value carries is dropped by the encoder)
+//@   ensures [C14] t.Method != MediaKeyMethodNone ==> contains(result, ",URI=\"")
+//@   ensures [C14] (t.Method != MediaKeyMethodNone && t.IV != "") ==> contains(result, ",IV=")
+//@   ensures [C14] (t.Method != MediaKeyMethodNone && t.KeyFormat != "") ==> contains(result, ",KEYFORMAT=\"")
+//@   ensures [C14] (t.Method != MediaKeyMethodNone && t.KeyFormatVersions != "") ==> contains(result, ",KEYFORMATVERSIONS=\"")
 //@ end
 
 //@ func MultivariantStart.marshal
@@ -123,6 +141,14 @@ package playlist
 //@   emits [C14,C16] "AVERAGE-BANDWIDTH=" *v.AverageBandwidth
 //@   emits [C14,C16] "RESOLUTION=" v.Resolution
 //@   emits [C14,C16] "AUDIO=\"" v.Audio
+// a field that is set is written (C14: nothing the value carries is dropped by the encoder)
+//@   ensures [C14] v.AverageBandwidth != nil ==> contains(result, ",AVERAGE-BANDWIDTH=")
+//@   ensures [C14] v.Resolution != "" ==> contains(result, ",RESOLUTION=")
+//@   ensures [C14] v.FrameRate != nil ==> contains(result, ",FRAME-RATE=")
+//@   ensures [C14] v.Video != "" ==> contains(result, ",VIDEO=\"")
+//@   ensures [C14] v.Audio != "" ==> contains(result, ",AUDIO=\"")
+//@   ensures [C14] v.Subtitles != "" ==> contains(result, ",SUBTITLES=\"")
+//@   ensures [C14] v.ClosedCaptions != "" ==> contains(result, ",CLOSED-CAPTIONS=\"")
 //@ end
 
 //@ func MultivariantRendition.marshal
@@ -131,6 +157,15 @@ package playlist
 //@   emits [C14,C16] "GROUP-ID=\"" t.GroupID
 //@   emits [C14,C16] "NAME=\"" t.Name
 //@   emits [C14,C16] "LANGUAGE=\"" t.Language
+// a field that is set is written (C14: nothing the value carries is dropped by the encoder)
+//@   ensures [C14] t.Language != "" ==> contains(result, ",LANGUAGE=\"")
+//@   ensures [C14] t.Name != "" ==> contains(result, ",NAME=\"")
+//@   ensures [C14] t.Autoselect ==> contains(result, ",AUTOSELECT=YES")
+//@   ensures [C14] t.Default ==> contains(result, ",DEFAULT=YES")
+//@   ensures [C14] t.Forced ==> contains(result, ",FORCED=YES")
+//@   ensures [C14] t.Channels != nil ==> contains(result, ",CHANNELS=\"")
+//@   ensures [C14] t.URI != nil ==> contains(result, ",URI=\"")
+//@   ensures [C14] t.InStreamID != nil ==> contains(result, ",INSTREAM-ID=\"")
 //@ end
 
 //@ func MediaSegment.marshal
@@ -139,6 +174,14 @@ package playlist
 //@   ensures [C14,C15] result in /(#EXT-X-DISCONTINUITY\n)?(#EXT-X-GAP\n)?(#EXT-X-PROGRAM-DATE-TIME:{TIME}\n)?(#EXT-X-BITRATE:{INT}\n)?(#EXT-X-PART:{ATTRS}\n)*#EXTINF:{DF},[^\r\n]*\n(#EXT-X-BYTERANGE:{BR}\n)?{URILINE}\n/
 //@   emits [C14] "#EXTINF:" s.Duration
 //@   emits [C14] "#EXT-X-BITRATE:" *s.Bitrate
+// a field that is set is written (C14); the part loop keeps what was written before it
+//@   loop 1 invariant (s.Discontinuity ==> contains(ret, "#EXT-X-DISCONTINUITY\n")) && (s.Gap ==> contains(ret, "#EXT-X-GAP\n"))
+//@        && (s.DateTime != nil ==> contains(ret, "#EXT-X-PROGRAM-DATE-TIME:")) && (s.Bitrate != nil ==> contains(ret, "#EXT-X-BITRATE:"))
+//@   ensures [C14] s.Discontinuity ==> contains(result, "#EXT-X-DISCONTINUITY\n")
+//@   ensures [C14] s.Gap ==> contains(result, "#EXT-X-GAP\n")
+//@   ensures [C14] s.DateTime != nil ==> contains(result, "#EXT-X-PROGRAM-DATE-TIME:")
+//@   ensures [C14] s.Bitrate != nil ==> contains(result, "#EXT-X-BITRATE:")
+//@   ensures [C14] s.ByteRangeLength != nil ==> contains(result, "#EXT-X-BYTERANGE:")
 //@ end
 
 //@ func Media.Marshal
